@@ -189,4 +189,34 @@ FSqrtI(A, f)     == LET x == FIntVal(A, f) IN
 FRcpP2(A, f)     == LET e == FExp(A, f) IN
                     IF BIsZero(FFrac(A, f)) /\ e >= 2 /\ e <= 2 * f.bias - 2
                     THEN FWithSign(BShl(BOfNat(2 * f.bias - e, f.n), f.mb), FSign(A)) ELSE DCs(f.n)
+
+(* ---------------------------------------------------------------------------------------------------------------- *)
+(* multiply-add on INTEGRAL operands of any magnitude below 2^30 (a, b) / 2^60 (c): the exact product and sum are      *)
+(* 64-bit integers, so both documented behaviours (FMAddOpBehavior) are determined bit-exactly:                       *)
+(*   fused   : round(+-a*b +- c)              "FMA is available"                                                      *)
+(*   unfused : round(round(+-a*b) +- c)       "FMA is not available, thus `madd` is translated into two instructions"   *)
+(* ---------------------------------------------------------------------------------------------------------------- *)
+FIntW(A, f) ==   \* [ok, s, m]: sign and 64-bit magnitude of an integral finite value below 2^62
+  IF ~FIsFinite(A, f) THEN [ok |-> FALSE, s |-> 0, m |-> BZero(8)]
+  ELSE IF FIsZero(A) THEN [ok |-> TRUE, s |-> FSign(A), m |-> BZero(8)]
+  ELSE LET E == FExp(A, f) - f.bias IN
+       IF E < 0 \/ E > 61 THEN [ok |-> FALSE, s |-> 0, m |-> BZero(8)]
+       ELSE LET sig == BZExt(BOr(FFrac(A, f), Pow2W(f.mb, f.n)), 8)
+                m   == IF E >= f.mb THEN BShl(sig, E - f.mb) ELSE BShr(sig, f.mb - E)
+                fr  == IF E >= f.mb THEN BZero(8) ELSE BAnd(sig, LowMask(f.mb - E, 8))
+            IN [ok |-> BIsZero(fr), s |-> FSign(A), m |-> m]
+SmallW(m, k)     == BIsZero(BShr(m, k))
+SignedW(s, m)    == IF s = 1 THEN BNeg(m) ELSE m                       \* two's complement 64-bit
+FOfSW(W, f)      == IF BIsZero(W) THEN AnyZero(f.n) ELSE IF BMsb(W) = 1 THEN FOfMag(BNeg(W), 1, f) ELSE FOfMag(W, 0, f)
+(* nm: the product is negated; sb: c is subtracted *)
+FMulAddI(A, B, C, f, nm, sb, fused) ==
+  LET x == FIntW(A, f) y == FIntW(B, f) z == FIntW(C, f) IN
+  IF ~(x.ok /\ y.ok /\ z.ok /\ SmallW(x.m, 30) /\ SmallW(y.m, 30) /\ SmallW(z.m, 60)) THEN DCs(f.n)
+  ELSE LET pm == BMul(x.m, y.m)
+           P  == SignedW((x.s + y.s + (IF nm THEN 1 ELSE 0)) % 2, pm)
+           Cw == SignedW((z.s + (IF sb THEN 1 ELSE 0)) % 2, z.m)
+       IN IF fused \/ BIsZero(pm) THEN FOfSW(BAdd(P, Cw), f)
+          ELSE LET pr == FOfSW(P, f)                                   \* the separately rounded product
+                   q  == FIntW(pr, f)
+               IN FOfSW(BAdd(SignedW(q.s, q.m), Cw), f)
 =============================================================================
